@@ -3,11 +3,14 @@ package store
 import (
 	"bytes"
 	"context"
+	"encoding/json"
 	"errors"
 	"fmt"
 	"math"
 	"os"
 	"path/filepath"
+	"strconv"
+	"strings"
 	"sync"
 	"time"
 
@@ -101,6 +104,15 @@ func OpenStore(ctx context.Context, primaryType string, dataPath, indexPath stri
 		return nil, err
 	}
 
+	// If the process stopped while a translated index was replacing the old
+	// one, complete the replacement before the index is opened.
+	err = finishIndexTranslation(indexPath)
+	if err != nil {
+		primary.Close()
+		freeList.Close()
+		return nil, fmt.Errorf("cannot complete interrupted index translation: %w", err)
+	}
+
 	idx, err := index.Open(ctx, indexPath, primary, c.indexSizeBits, c.indexFileSize, c.gcInterval, c.gcTimeLimit, fileCache)
 	var bitSizeError types.ErrIndexWrongBitSize
 	if errors.As(err, &bitSizeError) {
@@ -156,6 +168,13 @@ func translateIndex(ctx context.Context, indexPath string, primary primary.Prima
 	defer oldIndex.Close()
 
 	indexDir := filepath.Dir(indexPath)
+	// Remove what an earlier translation that did not get as far as replacing
+	// the old index may have left behind.
+	if stale, _ := filepath.Glob(filepath.Join(indexDir, "new_index*")); len(stale) != 0 {
+		for _, dir := range stale {
+			os.RemoveAll(dir)
+		}
+	}
 	indexTmp, err := os.MkdirTemp(indexDir, "new_index")
 	if err != nil {
 		return err
@@ -212,27 +231,121 @@ func translateIndex(ctx context.Context, indexPath string, primary primary.Prima
 		return fmt.Errorf("error closing old index: %w", err)
 	}
 
-	// Create a temp directory for the old index files and move them there.
-	oldTmp, err := os.MkdirTemp(indexDir, "old_index")
+	// The new index is complete. Record which files it consists of, so that
+	// replacing the old index files with them is completed by the next open if
+	// the process stops before it is finished. Until the journal exists the
+	// old index is untouched.
+	entries, err := os.ReadDir(indexTmp)
 	if err != nil {
 		return err
 	}
-	if err = index.MoveFiles(indexPath, oldTmp); err != nil {
-		return fmt.Errorf("cannot move old index files: %w", err)
+	journal := translationJournal{NewDir: filepath.Base(indexTmp)}
+	for _, entry := range entries {
+		journal.Files = append(journal.Files, entry.Name())
 	}
-
-	// Move the new index file from the temp directory to the index directory.
-	if err = index.MoveFiles(newIndexPath, indexDir); err != nil {
-		return fmt.Errorf("cannot move new index files: %w", err)
+	if err = writeTranslationJournal(indexPath, journal); err != nil {
+		return fmt.Errorf("cannot write index translation journal: %w", err)
 	}
-
-	// Remove the old index files.
-	if err = os.RemoveAll(oldTmp); err != nil {
-		return fmt.Errorf("cannot remove old index files: %w", err)
+	if err = finishIndexTranslation(indexPath); err != nil {
+		return fmt.Errorf("cannot replace old index files with new: %w", err)
 	}
 
 	log.Infof("Finished translating index to %d bit prefix", indexSizeBits)
 	return nil
+}
+
+// translationJournal lists the files of a translated index that is ready to
+// replace the index at indexPath, and the directory, next to the index, that
+// they are moved from.
+type translationJournal struct {
+	NewDir string
+	Files  []string
+}
+
+func translationJournalName(indexPath string) string {
+	return filepath.Clean(indexPath) + ".translate"
+}
+
+func writeTranslationJournal(indexPath string, journal translationJournal) error {
+	data, err := json.Marshal(&journal)
+	if err != nil {
+		return err
+	}
+	journalPath := translationJournalName(indexPath)
+	tmpPath := journalPath + ".tmp"
+	if err = os.WriteFile(tmpPath, data, 0o666); err != nil {
+		return err
+	}
+	return os.Rename(tmpPath, journalPath)
+}
+
+// finishIndexTranslation replaces the files of the index at indexPath with the
+// files listed in the translation journal, if there is one. Every step can be
+// repeated, so this also completes a replacement that was interrupted.
+func finishIndexTranslation(indexPath string) error {
+	journalPath := translationJournalName(indexPath)
+	data, err := os.ReadFile(journalPath)
+	if err != nil {
+		if os.IsNotExist(err) {
+			return nil
+		}
+		return err
+	}
+	var journal translationJournal
+	if err = json.Unmarshal(data, &journal); err != nil {
+		return err
+	}
+
+	indexDir := filepath.Dir(indexPath)
+	newDir := filepath.Join(indexDir, filepath.Base(journal.NewDir))
+	isNew := make(map[string]struct{}, len(journal.Files))
+	for _, name := range journal.Files {
+		isNew[name] = struct{}{}
+	}
+
+	// Remove the files of the old index that are not replaced by a new file.
+	indexBase := filepath.Base(indexPath)
+	entries, err := os.ReadDir(indexDir)
+	if err != nil {
+		return err
+	}
+	for _, entry := range entries {
+		name := entry.Name()
+		if _, ok := isNew[name]; ok || !isIndexFileName(indexBase, name) {
+			continue
+		}
+		if err = os.Remove(filepath.Join(indexDir, name)); err != nil {
+			return err
+		}
+	}
+
+	// Move the new files into place. A file that is not in the new directory
+	// any more was moved before the interruption.
+	for _, name := range journal.Files {
+		err = os.Rename(filepath.Join(newDir, name), filepath.Join(indexDir, name))
+		if err != nil && !os.IsNotExist(err) {
+			return err
+		}
+	}
+
+	if err = os.Remove(journalPath); err != nil {
+		return err
+	}
+	return os.RemoveAll(newDir)
+}
+
+// isIndexFileName reports whether name is the name of the header file, the
+// saved buckets file, or a numbered file of the index with the given base name.
+func isIndexFileName(indexBase, name string) bool {
+	suffix, ok := strings.CutPrefix(name, indexBase+".")
+	if !ok {
+		return false
+	}
+	if suffix == "info" || suffix == "buckets" {
+		return true
+	}
+	_, err := strconv.ParseUint(suffix, 10, 32)
+	return err == nil
 }
 
 func (s *Store) Start() {
